@@ -12,6 +12,16 @@
   launch had reported TASK_RUNNING) are read off the observation and fed to the
   model as oracles.
 
+  `(newd K F A KP)` — a creation and a destroy of the same environment issued while the creation's
+  deployment was in flight — is two threads. The creation is cut at the critical sections of the
+  environment's transition mutex (`settleDeploy` · `settleConfigure` | `settleGoError` ·
+  `settleTeardown` · `settleKill`; their uninterrupted sequence is `createSettle`: theorem
+  `C06_settle_pieces`). If the core logged that the teardown waited behind a transition of the
+  creation (OV ≠ -), the destroy is `lateAttempt` · [`lateRetry`] — TeardownEnvironment served at
+  some later section boundary, on the environment as it is THEN — placed anywhere after DEPLOY; if
+  it was not delayed (OV = -) it is an ordinary `destroy` placed anywhere after DEPLOY (in practice:
+  after the creation returned).
+
   The model replayed is the code as it is (`Own.codeCfg`, the default of `Own.init`):
   it cannot crash at a complete claim, its teardown names the hook tasks of all
   weights, and the oracle of the rendezvous race (`late`, still passed when a call was
@@ -49,6 +59,7 @@ inductive OpIn where
   | new (k : Nat) | ctl (k : Nat) (ev : CEv) | destroy (k : Nat) (f a kp : Bool)
   | cleanup | killenv (k : Nat) | rel (k : Nat)
   | xfail (k j : Nat) (upd : Bool) | afail (k j : Nat) (upd : Bool)
+  | newd (k : Nat) (f a kp : Bool)
   deriving Repr, Inhabited
 
 structure Scenario where
@@ -85,6 +96,7 @@ def parseOp : SExp → Option OpIn
   | .list [.atom "rel", k] => do pure (.rel (← k.nat?))
   | .list [.atom "xfail", k, j, u] => do pure (.xfail (← k.nat?) (← j.nat?) (← u.bool?))
   | .list [.atom "afail", k, j, u] => do pure (.afail (← k.nat?) (← j.nat?) (← u.bool?))
+  | .list [.atom "newd", k, f, a, kp] => do pure (.newd (← k.nat?) (← f.bool?) (← a.bool?) (← kp.bool?))
   | _ => none
 
 def parseScenario (s : String) : Option Scenario :=
@@ -115,15 +127,18 @@ def validHosts : List Nat := [1, 2, 3, 4]
 inductive ResObs where
   | ok | okState (s : String) | okN (n : Nat) | err (c : String) | hang | crash
   | lost (ks : List Nat)        -- xfail / afail: the environments whose watcher was seen to react
+  | nd (c d : ResObs) (ov : String)   -- newd: the creation's answer, the destroy's answer, the transition the teardown waited behind (or -)
   deriving DecidableEq, Repr, Inhabited
 
 structure RoundObs where
   results : List ResObs
-  snap : Option SExp            -- none = crashed
+  snap : Option SExp            -- none = crashed (or wedged)
   hk : List (Nat × Nat × Nat)
+  wedged : Bool := false        -- no snapshot: the core's goroutine dump showed the environment manager's mutex deadlocked
   deriving Repr, Inhabited
 
-def parseRes : SExp → Option ResObs
+partial def parseRes : SExp → Option ResObs
+  | .list [.atom "nd", c, d, .atom ov] => do pure (.nd (← parseRes c) (← parseRes d) ov)
   | .list [.atom "ok"] => some .ok
   | .list [.atom "ok", .atom s] => some (match s.toNat? with | some n => .okN n | none => .okState s)
   | .list [.atom "err", .atom c] => some (.err c)
@@ -140,7 +155,10 @@ def parseRound : SExp → Option RoundObs
     let sn := match snap with
       | .atom _ => none
       | x => some x
-    pure { results := ← rs.mapM? parseRes, snap := sn, hk := hk }
+    let wd := match snap with
+      | .atom "wedged" => true
+      | _ => false
+    pure { results := ← rs.mapM? parseRes, snap := sn, hk := hk, wedged := wd }
   | _ => none
 
 def parseObs (s : String) : Option (List RoundObs) :=
@@ -304,14 +322,30 @@ def settleOracle (sc : Scenario) (k : Nat) (ro : RoundObs) (late : Bool) (lost :
         | _ => none),
       late := late, lost := lost }
 
-abbrev SubStep := State → State × Res
+/-- What a thread remembers from one of its steps to the next (the creating goroutine between its
+    critical sections; a destroy between its two teardown attempts). -/
+structure Local where
+  mid : Option Mid := none
+  skip : Bool := false        -- the remaining steps of the thread have nothing to do
+
+/-- One atomic part of an operation. `en`: whether it can be taken in this state (a request
+    waiting for a mutex cannot). A result other than `noop` is the operation's answer. -/
+structure SubStep where
+  run : Local → State → Local × State × Res
+  en : Local → State → Bool := fun _ _ => true
+
+/-- A step that needs no memory and is always enabled. -/
+def sub (f : State → State × Res) : SubStep := { run := fun l s => let r := f s; (l, r.1, r.2) }
 
 structure Thread where
   idx : Nat
   steps : List SubStep
   res : Option Res := none
+  loc : Local := {}
+  want : Option ResObs := none       -- the observed answer this thread has to produce (default: result `idx` of the round)
+  lenient : Bool := false            -- the creation of a `newd`: its reply is put together while the destroy may be at work
 
-def liftStep (st : State → Step) : SubStep := fun s => step s (st s)
+def liftStep (st : State → Step) : SubStep := sub (fun s => step s (st s))
 
 /-- The task a loss operation names: the latest launch for role `j` of environment `k` that has not ended. -/
 def victim (s : State) (k j : Nat) : Option MTask :=
@@ -322,6 +356,7 @@ def victim (s : State) (k j : Nat) : Option MTask :=
 def roundReleases (sc : Scenario) (ops : List OpIn) : Bool :=
   ops.any (fun
     | .destroy _ _ _ _ => true
+    | .newd _ _ _ _ => true
     | .new k => match sc.envs[k]? with
       | some e => e.roles.any (fun r => r.kind != .call && (r.launch != "ok" || r.cfg != "ok"))
       | none => false
@@ -338,7 +373,7 @@ def threadOf (sc : Scenario) (ops : List OpIn) (ro : RoundObs) (idx : Nat) (op :
     { idx := idx,
       steps := (if roundReleases sc ops
                 then [liftStep (fun _ => .createBegin k spec), liftStep (fun _ => .createCleanup k)]
-                else [fun s => let a := step s (.createBegin k spec); ((step a.1 (.createCleanup k)).1, a.2)])
+                else [sub (fun s => let a := step s (.createBegin k spec); ((step a.1 (.createCleanup k)).1, a.2))])
         ++ [liftStep (fun _ => .createInsert k)]
         ++ (if sc.reuse then [liftStep (fun _ => .createClaim k)] else [])
         ++ [liftStep (fun _ => .createSettle k (settleOracle sc k ro hang (lostInCreation sc ops k)))] }
@@ -358,16 +393,17 @@ def threadOf (sc : Scenario) (ops : List OpIn) (ro : RoundObs) (idx : Nat) (op :
     { idx := idx, steps := [liftStep (fun s => .destroy k f a kp
         { stopFails := trFails sc s k "STOP", resetFails := trFails sc s k "RESET", late1 := hang, late2 := hang,
           hookFails := hookFailIds sc s k })] }
-  | .cleanup => { idx := idx, steps := [fun s =>
+  | .cleanup => { idx := idx, steps := [sub (fun s =>
       let r := step s .cleanup
-      (r.1, if r.2 = .ok then .okKilled (r.1.killLog.length - s.killLog.length) else r.2)] }
-  | .killenv k => { idx := idx, steps := [fun s =>
+      (r.1, if r.2 = .ok then .okKilled (r.1.killLog.length - s.killLog.length) else r.2))] }
+  | .killenv k => { idx := idx, steps := [sub (fun s =>
       let ids := (s.master.filter (fun m => decide (m.label = k))).map (·.id)
       let r := step s (.killIds (if ids = [] then [0] else ids))
-      (r.1, if r.2 = .ok then .okKilled (r.1.killLog.length - s.killLog.length) else r.2)] }
+      (r.1, if r.2 = .ok then .okKilled (r.1.killLog.length - s.killLog.length) else r.2))] }
   | .rel k => { idx := idx, steps := [liftStep (fun _ => .mesosStart k)] }
-  | .xfail k j _ => if createdHere ops k then { idx := idx, steps := [fun s => (s, .ok)] } else lossThread false k j
-  | .afail k j _ => if createdHere ops k then { idx := idx, steps := [fun s => (s, .ok)] } else lossThread true k j
+  | .xfail k j _ => if createdHere ops k then { idx := idx, steps := [sub (fun s => (s, .ok))] } else lossThread false k j
+  | .afail k j _ => if createdHere ops k then { idx := idx, steps := [sub (fun s => (s, .ok))] } else lossThread true k j
+  | .newd _ _ _ _ => { idx := idx, steps := [] }     -- two threads: see `threadsOf`
 where
   /-- The executor / agent of the host the victim runs on is lost (nothing happens if there is no
       victim); then the watchers that were seen to react do (which ones are still alive is the
@@ -377,11 +413,92 @@ where
       | .lost ks => ks
       | _ => []
     { idx := idx,
-      steps := [fun s => match victim s k j with
+      steps := [sub (fun s => match victim s k j with
                   | none => (s, .noop)
-                  | some m => ((step s (if agent then .agentLost m.host else .execLost m.host)).1, .noop)]
-        ++ fired.map (fun k' => fun s => ((step s (.watchError k' (trFails sc s k' "STOP"))).1, .noop))
-        ++ [fun s => (s, .ok)] }
+                  | some m => ((step s (if agent then .agentLost m.host else .execLost m.host)).1, .noop))]
+        ++ fired.map (fun k' => sub (fun s => ((step s (.watchError k' (trFails sc s k' "STOP"))).1, .noop)))
+        ++ [sub (fun s => (s, .ok))] }
+
+/-- The creation half of a `newd`, cut at the critical sections of the transition mutex. -/
+def creationPieces (sc : Scenario) (ops : List OpIn) (ro : RoundObs) (k : Nat) (wedge : Bool := false) : List SubStep :=
+  let spec := match sc.envs[k]? with
+    | some e => specOf e
+    | none => { bad := .nowf, dets := [], roles := [] }
+  let o := settleOracle sc k ro false (lostInCreation sc ops k)
+  [liftStep (fun _ => .createBegin k spec), liftStep (fun _ => .createCleanup k), liftStep (fun _ => .createInsert k)]
+    ++ (if sc.reuse then [liftStep (fun _ => .createClaim k)] else [])
+    ++ [ -- DEPLOY
+         { run := fun l s => if s.crashed then (l, s, .crash) else
+             match settleDeploy s k o with
+             | (s1, none, r) => ({ l with skip := true }, s1, r)
+             | (s1, some m, _) => ({ l with mid := some m }, s1, .noop) },
+         -- CONFIGURE (after a successful DEPLOY)
+         { run := fun l s => match l.mid with
+             | none => (l, s, .noop)
+             | some m =>
+               if l.skip || m.res ≠ .noop then (l, s, .noop) else
+               let c := settleConfigure s m
+               if c.2.res = .okState .CONFIGURED then ({ l with skip := true }, c.1, c.2.res) else ({ l with mid := some c.2 }, c.1, .noop) },
+         -- GO_ERROR
+         { run := fun l s => match l.mid with
+             | none => (l, s, .noop)
+             | some m => if l.skip then (l, s, .noop) else (l, settleGoError s m, .noop) },
+         -- the creation's own forced teardown (`wedge`: it was seen to deadlock with the destroy's on the manager's mutex)
+         { run := fun l s => match l.mid with
+             | none => (l, s, .noop)
+             | some m => if l.skip then (l, s, .noop) else
+               if wedge then ({ l with skip := true }, wedgeTeardowns s k, .hang) else
+               let r := settleTeardown s m
+               if r.2 = .hang then ({ l with skip := true }, r.1, .hang) else (l, r.1, .noop) },
+         -- KillTasks, the answer
+         { run := fun l s => match l.mid with
+             | none => (l, s, .noop)
+             | some m => if l.skip then (l, s, .noop) else
+               let r := settleKill s m
+               (l, r.1, r.2) } ]
+
+/-- The destroy half of a `newd`. It was issued after the environment was seen listed inside a
+    transition of its creation (or after the creation returned): never before DEPLOY was entered —
+    in the model: not while the creation is still pending. -/
+def destroyPieces (sc : Scenario) (k : Nat) (f a kp : Bool) (ov : String) (wedge : Bool := false) : List SubStep :=
+  let past : Local → State → Bool := fun _ s => decide (k ∈ s.used) && !(s.creating.any (fun p => decide (p.id = k)))
+  let orc : State → DOracle := fun s =>
+    { stopFails := trFails sc s k "STOP", resetFails := trFails sc s k "RESET", hookFails := hookFailIds sc s k }
+  if ov == "-" then
+    -- not delayed by a transition: DestroyEnvironment as ever, its decision tree evaluated where it is served
+    [{ en := past, run := fun l s => let r := step s (.destroy k f a kp (orc s)); (l, r.1, r.2) }]
+  else
+    -- it waited for the transition mutex: doTeardownAndCleanup(force, keepTasks), each TeardownEnvironment served when it gets the mutex
+    [{ en := past, run := fun l s => if s.crashed then (l, s, .crash) else
+         -- `wedge`: having got the transition mutex, this teardown asked for the manager's write lock while the creation's
+         -- own teardown sat between its two read locks (finding teardown_recursive_rlock)
+         if wedge then ({ l with skip := true }, wedgeTeardowns s k, .hang) else
+         match lateAttempt s k (envTaskIds s k) f kp (orc s) with
+         | some r => ({ l with skip := true }, r.1, r.2.1)
+         | none => (l, s, .noop) },
+     { run := fun l s => if l.skip then (l, s, .noop) else if s.crashed then (l, s, .crash) else
+         let r := lateRetry s k (envTaskIds s k) kp (orc s)
+         (l, r.1, r.2.1) }]
+
+/-- The threads of one operation. -/
+def threadsOf (sc : Scenario) (ops : List OpIn) (ro : RoundObs) (idx : Nat) (op : OpIn) : List Thread :=
+  match op with
+  | .newd k f a kp =>
+    match ro.results.getD idx .ok with
+    | .nd c d ov =>
+      let wedge := ro.wedged && c == .hang && d == .hang
+      [{ idx := idx, steps := creationPieces sc ops ro k wedge, want := some c, lenient := ov != "-" },
+       { idx := idx, steps := destroyPieces sc k f a kp ov wedge, want := some d }]
+    | _ => [{ idx := idx, steps := [], want := some .hang, res := some .noop }]   -- malformed: never explained
+  | .destroy k _ _ _ =>
+    -- a destroy that did not return in a round that ended with the manager's mutex deadlocked: its teardown is one of the two
+    if ro.wedged && ro.results.getD idx .ok == .hang then
+      [{ idx := idx, steps := [{ run := fun l s => (l, wedgeTeardowns s k, .hang) }] }]
+    else [threadOf sc ops ro idx op]
+  | .new k =>
+    if ro.wedged && ro.results.getD idx .ok == .hang then [{ idx := idx, steps := creationPieces sc ops ro k true }]
+    else [threadOf sc ops ro idx op]
+  | _ => [threadOf sc ops ro idx op]
 
 /-- `conc`: the round had several requests. DestroyEnvironment releases and kills in two
     steps, so a concurrent cleanup may be the one that sends the KILLs: the number a cleanup
@@ -403,6 +520,15 @@ def resMatches (conc : Bool) (o : ResObs) (m : Res) : Bool :=
   | .crash, _ => true          -- the request died with the process, whatever it had achieved
   | _, _ => false
 
+/-- NewEnvironment puts its reply together after CreateEnvironment returned, without any lock: when a
+    destroy was waiting for the creation, a successful creation may be reported with the state the
+    teardown has set meanwhile (DONE) or as "cannot get newly created environment" (already deleted). -/
+def resMatchesLenient (o : ResObs) (m : Res) : Bool :=
+  match o, m with
+  | .okState "DONE", .okState _ => true
+  | .err "gone", .okState _ => true
+  | _, _ => false
+
 /-- All interleavings of the threads' remaining steps; the first accepted final state. -/
 partial def explore (check : State → List Thread → Bool) (ths : List Thread) (s : State) : Option State :=
   if ths.all (fun t => t.steps.isEmpty) then (if check s ths then some s else none)
@@ -415,12 +541,13 @@ partial def explore (check : State → List Thread → Bool) (ths : List Thread)
         match t.steps with
         | [] => go (i + 1)
         | st :: rest =>
-          let r := st s
+          if !st.en t.loc s then go (i + 1) else
+          let r := st.run t.loc s
           let t' : Thread :=
-            if t.res.isSome then { t with steps := rest }
-            else if r.2 = .noop then { t with steps := rest }
-            else { t with steps := [], res := some r.2 }
-          match explore check (ths.set i t') r.1 with
+            if t.res.isSome then { t with steps := rest, loc := r.1 }
+            else if r.2.2 = .noop then { t with steps := rest, loc := r.1 }
+            else { t with steps := [], loc := r.1, res := some r.2.2 }
+          match explore check (ths.set i t') r.2.1 with
           | some s' => some s'
           | none => go (i + 1)
     go 0
@@ -444,9 +571,11 @@ structure Replay where
   states : List State := []                -- model state after every explained round
 
 def checkRound (ro : RoundObs) (s : State) (ths : List Thread) : Bool :=
-  let resOk := ths.all (fun t => resMatches (decide (ths.length > 1)) (ro.results.getD t.idx .ok) (t.res.getD .ok))
+  let resOk := ths.all (fun t =>
+    let o := t.want.getD (ro.results.getD t.idx .ok)
+    resMatches (decide (ths.length > 1)) o (t.res.getD .ok) || (t.lenient && resMatchesLenient o (t.res.getD .ok)))
   resOk && (match ro.snap with
-    | none => s.crashed
+    | none => if ro.wedged then !s.crashed else s.crashed
     | some sn => !s.crashed && toString (normSnap (renderView s)) == toString (normSnap sn))
 
 def replay (sc : Scenario) (obs : List RoundObs) : Replay :=
@@ -456,16 +585,16 @@ def replay (sc : Scenario) (obs : List RoundObs) : Replay :=
     | [], _ :: _ => { verdict := some "more-rounds-observed-than-scripted", states := acc.reverse }
     | ops :: rounds', ro :: obs' =>
       if ro.results.length ≠ ops.length then { verdict := some s!"round-{n}-result-count", states := acc.reverse } else
-      let ths := (ops.zipIdx).map (fun p => threadOf sc ops ro p.2 p.1)
+      let ths := (ops.zipIdx).flatMap (fun p => threadsOf sc ops ro p.2 p.1)
       match explore (checkRound ro) ths s with
       | none =>
         -- for the reader of the result file: what the model does when the operations run one after the other
         let seq := ths.foldl (fun (a : State × List String) t =>
-          let r := t.steps.foldl (fun (b : State × Option Res) st =>
-            if b.2.isSome then b else
-            let x := st b.1
-            (x.1, if x.2 = .noop then none else some x.2)) (a.1, none)
-          (r.1, a.2 ++ [reprStr (r.2.getD .ok)])) (s, [])
+          let r := t.steps.foldl (fun (b : Local × State × Option Res) st =>
+            if b.2.2.isSome then b else
+            let x := st.run b.1 b.2.1
+            (x.1, x.2.1, if x.2.2 = .noop then none else some x.2.2)) (t.loc, a.1, none)
+          (r.2.1, a.2 ++ [reprStr (r.2.2.getD .ok)])) (s, [])
         let txt := s!"round-{n}-unexplained; sequential model: results {seq.2} view {renderView seq.1}"
         { verdict := some ((txt.replace "\t" " ").replace "\n" " "), states := acc.reverse }
       | some s' => go rounds' obs' s' (n + 1) (s' :: acc)
@@ -476,15 +605,18 @@ def envsOfOps (ops : List OpIn) : List Nat :=
   ops.filterMap (fun
     | .new k => some k | .ctl k _ => some k | .destroy k _ _ _ => some k
     | .killenv k => some k | .rel k => some k | .cleanup => none
-    | .xfail k _ _ => some k | .afail k _ _ => some k)
+    | .xfail k _ _ => some k | .afail k _ _ => some k | .newd k _ _ _ => some k)
 
 /-- Environments a call on which was seen to hang in this round. -/
 def hungOf (ops : List OpIn) (ro : RoundObs) : List Nat :=
   (ops.zipIdx).filterMap (fun p =>
-    if ro.results.getD p.2 .ok == .hang then
-      match p.1 with
-      | .new k => some k | .ctl k _ => some k | .destroy k _ _ _ => some k | _ => none
-    else none)
+    match p.1, ro.results.getD p.2 .ok with
+    | .newd k _ _ _, .nd c d _ => if c == .hang || d == .hang then some k else none
+    | op, r =>
+      if r == .hang then
+        match op with
+        | .new k => some k | .ctl k _ => some k | .destroy k _ _ _ => some k | _ => none
+      else none)
 
 /-- Rounds paired with their observation, the view before and after, and the hung environments so far. -/
 structure RoundCtx where
@@ -494,6 +626,7 @@ structure RoundCtx where
   after : View
   hungNow : Bool
   names : List String := []
+  wedged : Bool := false
 
 def contexts (sc : Scenario) (obs : List RoundObs) : List RoundCtx :=
   let names := collectNames obs
@@ -502,8 +635,10 @@ def contexts (sc : Scenario) (obs : List RoundObs) : List RoundCtx :=
     | ops :: rounds', ro :: obs' =>
       let h := hungOf ops ro
       let hung' := hung ++ h
-      let after := viewOfSnap names hung' ro.snap
-      { ops := ops, ro := ro, before := before, after := after, hungNow := !h.isEmpty, names := names } :: go rounds' obs' after hung'
+      -- a wedged core was not asked for a snapshot: the view is the one before, with the hung environments marked
+      let after := if ro.wedged then { before with envs := before.envs.map (fun E => { E with tearing := E.tearing || decide (E.env ∈ hung') }) }
+                   else viewOfSnap names hung' ro.snap
+      { ops := ops, ro := ro, before := before, after := after, hungNow := !h.isEmpty, names := names, wedged := ro.wedged } :: go rounds' obs' after hung'
     | _, _ => []
   go sc.rounds obs {} []
 
